@@ -223,12 +223,12 @@ func runC01(r *core.Run) {
 	}
 	lens = append(lens, 4095, 4096, 4097, 8000, 65535, 65536, 65537, 80000, 200001)
 	if r.Thorough() {
-		for l := 401; l <= 1700; l++ {
+		for l := 401; l <= 6000; l++ {
 			lens = append(lens, l)
 		}
 		lens = append(lens, 1<<20, 1<<20+1, 3<<20)
 	}
-	r.Bound("lengths", fmt.Sprintf("every length 0..%d plus 4095..4097, 8000, 65535..65537, 80000, 200001%s; layouts: as written, re-wrapped at width 1, 79, 80, 81, single line; each LF/CRLF and with/without final newline", core.Pick(r, 400, 1700), core.Pick(r, "", ", 1 MiB, 1 MiB+1, 3 MiB")))
+	r.Bound("lengths", fmt.Sprintf("every length 0..%d plus 4095..4097, 8000, 65535..65537, 80000, 200001%s; layouts: as written, re-wrapped at width 1, 79, 80, 81, single line; each LF/CRLF and with/without final newline", core.Pick(r, 400, 6000), core.Pick(r, "", ", 1 MiB, 1 MiB+1, 3 MiB")))
 	core.Clause(r, "lengths", core.Opts{Rule: "one record with position-dependent content of every listed length, in every listed layout; non-trivial = length >= 2"},
 		func(emit func(c01Len) bool) {
 			for _, l := range lens {
